@@ -137,8 +137,8 @@ def check_query(case, nodes, labels, preorder_index, ic, start, pattern, unique,
 
 # characters that mean something to the regular-expression engine but nothing in a pattern: braces that look like quantifiers,
 # character-class shorthands, anchors, alternation, groups
-REGEX_NAMES = ["v{2}", "vv", "v", "{1}", "a{1,2}", "aa", "a", "\\d", "7", "^a$", "(a)", "a|b", "a+", "a.b", "axb", "[ab]", "b"]
-REGEX_PATTERNS = REGEX_NAMES + ["*{1}", "v{2}*", "?{2}", "*{1,2}", "\\d*", "?d", "^*", "(?)", "a|*", "*+", "a.?", "[*]", "[ab]*", "*/v{2}", "**/{1}", "v{2}/a"]
+REGEX_NAMES = ["v{2}", "vv", "v", "{1}", "a{1,2}", "aa", "a", "\\d", "7", "^a$", "(a)", "a|b", "a+", "a.b", "axb", "[ab]", "b", "...", "....", ".a"]
+REGEX_PATTERNS = REGEX_NAMES + ["..?", "?...", "...*", ".....", "*{1}", "v{2}*", "?{2}", "*{1,2}", "\\d*", "?d", "^*", "(?)", "a|*", "*+", "a.?", "[*]", "[ab]*", "*/v{2}", "**/{1}", "v{2}/a"]
 
 
 def _regex_cases():
